@@ -31,6 +31,11 @@ class CNode:
     def lineno(self) -> int:
         return getattr(self.ast, "lineno", 0) or getattr(self.stmt, "lineno", 0)
 
+    @property
+    def src_lineno(self) -> int:
+        """The line the construct really stands on (differs from `lineno` for statements spliced in from a helper)."""
+        return getattr(self.ast, "src_lineno", 0) or getattr(self.stmt, "src_lineno", 0) or self.lineno
+
     def expr_root(self) -> Optional[ast.AST]:
         """The AST evaluated *at this node* (not the nested bodies)."""
         a = self.ast
@@ -54,12 +59,12 @@ class Edge:
 
     def describe(self) -> str:
         if self.label and self.label[0] == "cond":
-            return f"L{self.src.lineno}: [{unparse(self.label[1])}] is {self.label[2]}"
+            return f"L{self.src.src_lineno}: [{unparse(self.label[1])}] is {self.label[2]}"
         if self.label and self.label[0] == "iter":
-            return f"L{self.src.lineno}: loop {'iterates' if self.label[2] else 'exhausted'}"
+            return f"L{self.src.src_lineno}: loop {'iterates' if self.label[2] else 'exhausted'}"
         if self.label and self.label[0] == "exc":
-            return f"L{self.src.lineno}: raises -> handler"
-        return f"L{self.src.lineno}"
+            return f"L{self.src.src_lineno}: raises -> handler"
+        return f"L{self.src.src_lineno}"
 
 
 class CFG:
@@ -120,6 +125,11 @@ class CFG:
                 return t, f
         if isinstance(expr, ast.UnaryOp) and isinstance(expr.op, ast.Not):
             t, f = self._cond(expr.operand, frontier, stmt)
+            return f, t
+        if isinstance(expr, ast.Compare) and len(expr.ops) == 1 and type(expr.ops[0]) in _POSITIVE:
+            # `a not in b`, `a != b`, `a is not b` are presented as the positive comparison with the arms exchanged
+            pos = ast.copy_location(ast.Compare(left=expr.left, ops=[_POSITIVE[type(expr.ops[0])]()], comparators=expr.comparators), expr)
+            t, f = self._cond(pos, frontier, stmt)
             return f, t
         if isinstance(expr, ast.Call) and self._virtual_depth < 3:
             inner = _predicate_body(expr)
@@ -292,6 +302,16 @@ class CFG:
             done, outs = self._ifexp_split(s, frontier)
             if done:
                 return outs
+            if s.value is not None and isinstance(s.value, ast.Call) and isinstance(s.value.func, ast.Name) and s.value.func.id == "bool" \
+                    and len(s.value.args) == 1 and not s.value.keywords and isinstance(s.value.args[0], (ast.BoolOp, ast.Compare, ast.UnaryOp)):
+                # `return bool(<condition>)`: the branch `if <condition>: return True` / `return False` written as an expression
+                t, f = self._cond(s.value.args[0], frontier, s)
+                for fr, val in ((t, True), (f, False)):
+                    if fr:
+                        r = ast.copy_location(ast.Return(value=ast.copy_location(ast.Constant(value=val), s)), s)
+                        n = self._simple(r, fr)
+                        self._edge(n, self.exit)
+                return []
             if s.value is not None and _is_quantifier(s.value):
                 # `return any(...)` / `return all(...)`: the search loop, answering True / False
                 t, f = self._cond(s.value, frontier, s)
@@ -575,6 +595,9 @@ def _predicate_body(call: ast.Call) -> Optional[ast.AST]:
     for x in ast.walk(out):
         ast.copy_location(x, call)
     return out
+
+
+_POSITIVE = {ast.NotIn: ast.In, ast.NotEq: ast.Eq, ast.IsNot: ast.Is}
 
 
 def _is_quantifier(e: ast.AST) -> bool:
